@@ -363,9 +363,12 @@ def W2(ctx, rule="W2"):
     ctx.check(len(cm["pairs"]) >= 3, rule, "count", m.where(b, bb), "at least 3 comparison sites found", "fewer than 3 comparison sites found (%d)" % len(cm["pairs"]))
 
 
-def R2(ctx, rule="R2"):
+def R2(ctx, rule="R2", strict_order=True):
     """Between the pair enumeration and the insertion every guard is of an
-    allowed class."""
+    allowed class.  strict_order: the has_path_connecting guard must test
+    (a, b) in the order of the inserted edge (needed by C11.B3: an existing
+    a->b edge is never overwritten); for C01 either order of the same two
+    endpoints is a reachability test that only skips already-ordered pairs."""
     m, fl = ctx.model, ctx.model.flow
     cm = conflict_model(ctx)
     if "error" in cm:
@@ -390,6 +393,8 @@ def R2(ctx, rule="R2"):
                 b2 = strip_refs(expr_operand(b, t2["args"][2]))
                 # syntactic identity (both endpoints are elements of the same list)
                 same = a2 == cm["a"] and b2 == cm["b"] and a2 != b2
+                if not strict_order and a2 == cm["b"] and b2 == cm["a"] and a2 != b2:
+                    same = True
                 g_same = fl.sources_operand(b, t2["args"][0]) == fl.sources_operand(b, t["args"][0])
                 # taken when false
                 vals = {pc[sym] for pc in cm["pcs"] if sym in pc}
@@ -410,8 +415,10 @@ def R2(ctx, rule="R2"):
                     ok_seen = True
             # the read must be an element of a vec<bool> allocated in build's reach
             if ok_seen and ("index" in str(sym[1]) or kind == "unknown"):
-                # provenance: check the switch local's taint
-                ctx.ok(rule, "seen-flag", where, "per-iteration seen flag (test-and-set on a local Vec<bool>) guards the pair")
+                ok_reset, why_reset = seen_flag_reset(ctx, cm)
+                ctx.check(ok_reset, rule, "seen-flag", where,
+                          "per-iteration seen flag (test-and-set on a local Vec<bool>) guards the pair and is reset at the start of every outer iteration",
+                          "the seen flags guarding the pair are not reset for every outer element (%s): a pair examined for one element is skipped for all others" % why_reset)
                 n_ok += 1
                 continue
         if kind == "unknown":
@@ -419,7 +426,10 @@ def R2(ctx, rule="R2"):
             srcs = fl.sources_local(b, sym[1], (), "taint")
             if srcs and all(s.kind in ("const", "alloc", "op") for s in srcs) and any(
                     s.kind == "alloc" and s[4] == "std::vec::from_elem" for s in srcs):
-                ctx.ok(rule, "seen-flag", where, "per-iteration seen flag (element of a local Vec<bool>) guards the pair")
+                ok_reset, why_reset = seen_flag_reset(ctx, cm)
+                ctx.check(ok_reset, rule, "seen-flag", where,
+                          "per-iteration seen flag (element of a local Vec<bool>) guards the pair and is reset at the start of every outer iteration",
+                          "the seen flags guarding the pair are not reset for every outer element (%s): a pair examined for one element is skipped for all others" % why_reset)
                 n_ok += 1
                 continue
             cls = "local _%s with sources %s" % (sym[1], [fmt_src(s) for s in srcs][:4])
@@ -428,6 +438,36 @@ def R2(ctx, rule="R2"):
     # guards tainted by ranks / edge weights anywhere in the iterator chains feeding the pair
     R2_chain_filters(ctx, rule, cm)
     ctx.floor(rule, 2, "guards between pair enumeration and insertion")
+
+
+def seen_flag_reset(ctx, cm):
+    """The Vec<bool> of seen flags is cleared (`fill(false)`) in the outer
+    per-element closure before the inner enumeration starts, or allocated
+    inside it."""
+    m, fl = ctx.model, ctx.model.flow
+    b = cm["site"][0]
+    flags = set()
+    for st in stores_through_index(b):
+        if st["value"].kind == "const":
+            for s_ in fl.sources_operand(b, st["container"]):
+                if s_.kind == "alloc" and s_[4] == "std::vec::from_elem":
+                    flags.add((s_[1], s_[2]))
+    if not flags:
+        return False, "seen-flag vector not found"
+    uses = fl.closure_uses(b)
+    if len(uses) != 1:
+        return False, "inner closure not passed to one consumer"
+    ob, ubb, ut, ai = uses[0]
+    # allocated inside the outer closure?
+    if all(k[0] == ob.id for k in flags):
+        return True, ""
+    for bb, t in ob.calls():
+        if callee_path(t) == "std::slice::<impl [T]>::fill":
+            srcs = fl.sources_operand(ob, t["args"][0])
+            val = strip_refs(expr_operand(ob, t["args"][1]))
+            if any(s_.kind == "alloc" and (s_[1], s_[2]) in flags for s_ in srcs) and is_const(val, 0) and ob.dominates(bb, ubb):
+                return True, ""
+    return False, "no `fill(false)` of the flag vector dominating the inner enumeration in %s" % short(ob.id)
 
 
 def R2_chain_filters(ctx, rule, cm):
@@ -473,8 +513,11 @@ def R2_chain_filters(ctx, rule, cm):
         x = pb if pb.kind == "closure" else None
 
 
-def R3(ctx, rule="R3"):
-    """phase order in build(): augment dominates count calc, raw_edges, raw_nodes; same graph"""
+def R3(ctx, rule="R3", parts=("structures", "counts", "graph-field")):
+    """phase order in build(): augment dominates count calc, raw_edges, raw_nodes; same graph.
+    parts selects what a property depends on: `structures` (raw_edges/raw_nodes after augmentation),
+    `counts` (count calculation after augmentation), `graph-field` (FnGraph.graph is the augmented
+    graph), `ranks` (rank calculation precedes augmentation and is the only one)."""
     m, fl = ctx.model, ctx.model.flow
     b = build_body(ctx)
     if b is None:
@@ -502,23 +545,32 @@ def R3(ctx, rule="R3"):
         return
     gsrc = fl.sources_operand(b, aug[1]["args"][0])
     for bb, t, name in later:
+        part = "structures" if name in ("raw_edges", "raw_nodes") else "counts"
+        if part not in parts:
+            continue
         same = fl.sources_operand(b, t["args"][0]) == gsrc
         ctx.check(b.dominates(aug[0], bb) and same, rule, "after-augment|%s" % name, m.where(b, bb),
                   "%s reads the same graph after data-edge augmentation (augment call dominates it)" % name,
                   "%s is evaluated on the graph before augmentation / on a different graph: Data edges are ignored" % name)
-    if rank_call:
-        ctx.check(b.dominates(rank_call[0], aug[0]) and fl.sources_operand(b, rank_call[1]["args"][0]) == gsrc, rule,
-                  "ranks-before-augment", m.where(b, rank_call[0]),
-                  "ranks are computed on the user's edges before augmentation",
-                  "rank calculation does not precede augmentation on the same graph")
+    if "ranks" in parts:
+        rcs = []
+        for bb, t in b.calls():
+            p = callee_path(t) or ""
+            if p in ctx.fb.bodies and "Rank" in t["dest"]["ty"] and any(
+                    (a.get("pl", {}).get("ty", "")).startswith("&daggy::Dag<F,") for a in t["args"]):
+                rcs.append((bb, t))
+        okr = bool(rcs) and all(b.dominates(bb, aug[0]) and fl.sources_operand(b, t["args"][0]) == gsrc for bb, t in rcs)
+        ctx.check(okr, rule, "ranks-before-augment", m.where(b, rcs[-1][0]) if rcs else m.where(b),
+                  "every rank calculation in build() runs on the user's edges before augmentation",
+                  "a rank calculation runs after / without preceding data-edge augmentation: ranks would count Data edges")
     # the augmented graph is the one stored in FnGraph.graph
     roles = structure_roles(ctx)
-    for bb, si, s in b.stmts():
+    for bb, si, s in (b.stmts() if "graph-field" in parts else []):
         if s["k"] == "assign" and s["rv"]["k"] == "agg" and s["rv"].get("def") == "fn_graph::FnGraph":
             op = s["rv"]["ops"][roles["graph"]]
             ctx.check(fl.sources_operand(b, op) == gsrc, rule, "graph-field", m.where(b, bb, si),
                       "FnGraph.graph is the augmented graph itself", "FnGraph.graph is not the graph that was augmented")
-    ctx.floor(rule, 4, "phase-order obligations")
+    ctx.floor(rule, 1, "phase-order obligations")
 
 
 def R4(ctx, rule="R4"):
@@ -852,8 +904,9 @@ def D2(ctx, rule="D2"):
               "edge direction / list identity not established: %s" % why)
 
 
-NONDET_PAT = ("std::collections::HashMap", "std::collections::HashSet", "std::collections::hash_map", "std::hash::RandomState",
-              "std::time::", "std::thread::", "rand::", "std::env::", "std::process::id", "std::ptr::addr", "getrandom")
+NONDET_PAT = ("std::time::", "std::thread::", "rand::", "std::env::", "std::process::id", "std::ptr::addr", "getrandom",
+              "std::hash::RandomState::new", "std::collections::hash_map::RandomState::new")
+HASH_ITER = ("::iter", "::into_iter", "::keys", "::values", "::drain", "::iter_mut", "::values_mut", "::into_keys", "::into_values")
 
 
 def D3(ctx, rule="D3"):
@@ -866,15 +919,16 @@ def D3(ctx, rule="D3"):
     bad = []
     n_calls = 0
     for b in build_reach(ctx):
-        for l in b.locals:
-            for d in l["defs"]:
-                if any(d.startswith(x) for x in NONDET_PAT):
-                    bad.append((b, None, "local of type mentioning %s" % d))
         for bb, t in b.calls():
             n_calls += 1
             p = callee_path(t) or ""
             if any(p.startswith(x) for x in NONDET_PAT):
                 bad.append((b, bb, "call to %s" % p))
+            # iteration over a hash-ordered container (its order would leak into the result)
+            if (p.startswith("std::collections::HashMap") or p.startswith("std::collections::HashSet") or
+                    p.startswith("std::collections::hash_map") or p.startswith("std::collections::hash_set")) and \
+                    any(p.endswith(x) for x in HASH_ITER):
+                bad.append((b, bb, "iteration over a hash-ordered container (%s)" % p))
         for bb, si, s in b.stmts():
             if s["k"] == "assign" and s["rv"]["k"] == "cast" and "Expose" in s["rv"]["ck"]:
                 bad.append((b, bb, "pointer-to-integer cast"))
@@ -882,7 +936,7 @@ def D3(ctx, rule="D3"):
         for b, bb, why in bad[:10]:
             ctx.bad(rule, "nondet|%s" % short(b.id), m.where(b, bb), "build() depends on a non-deterministic source: %s" % why)
     else:
-        ctx.ok(rule, "deterministic", m.where(b0), "no hash-ordered container, RNG, clock, thread, environment or address-derived value in the %d bodies / %d calls reachable from build()" % (len(build_reach(ctx)), n_calls))
+        ctx.ok(rule, "deterministic", m.where(b0), "no iteration over a hash-ordered container, RNG, clock, thread, environment or address-derived value in the %d bodies / %d calls reachable from build()" % (len(build_reach(ctx)), n_calls))
 
 
 def D4(ctx, rule="D4"):
@@ -955,6 +1009,14 @@ PUSH_FNS = ("std::collections::VecDeque::<T, A>::push_back", "std::collections::
             "std::collections::BinaryHeap::<T, A>::push", "std::collections::VecDeque::<T, A>::append", "std::vec::Vec::<T, A>::append")
 POP_FNS = ("std::collections::VecDeque::<T, A>::pop_front", "std::collections::VecDeque::<T, A>::pop_back",
            "std::vec::Vec::<T, A>::pop", "std::collections::BinaryHeap::<T, A>::pop")
+
+
+POLY_GRAPH_CALLS = (
+    "::node_count", "::edge_count", "::children", "::parents", "::iter", "::walk_next", "::node_references", "::node_indices",
+    "::raw_edges", "::raw_nodes", "::add_node", "::add_edge", "::update_edge", "::graph", "::index", "::new", "::source", "::target",
+    "algo::has_path_connecting", "::node_weight", "::node_weights_mut", "::edge_weight", "::next", "::find_edge", "::toposort",
+    "::node_identifiers", "::neighbors", "::neighbors_directed", "::edges", "::edges_directed", "::edge_references", "::from_elem",
+)
 
 
 def rank_calc_body(ctx):
@@ -1049,6 +1111,18 @@ def C18_loops(ctx, rule="C18.loops"):
                 ctx.check(ok, rule, "worklist-progress|%s" % short(pb.id), m.where(pb, bb),
                           "push onto the popped work queue is control dependent on a progress guard (%s): each node is re-queued at most once per distinct value" % why,
                           "push onto the popped work queue has no progress guard (%s): the number of pops equals the number of root-to-node paths, exponential on layered/dense graphs" % why)
+    # dependency calls into the graph library: only operations known to be polynomial
+    n_dep = 0
+    for bx in bodies:
+        for bb, t in bx.calls():
+            p = callee_path(t) or ""
+            if p.startswith("daggy::") or p.startswith("petgraph::"):
+                n_dep += 1
+                base = p.split("::<")[0] if False else p
+                if not any(base.endswith(x) or base == x for x in POLY_GRAPH_CALLS):
+                    ctx.unverifiable(rule, "graph-library-call|%s|%s" % (short(bx.id), p.split("::")[-1]), m.where(bx, bb),
+                                     "build() calls %s, which is not among the graph-library operations known to be polynomial (e.g. simple-path enumeration is exponential)" % p)
+    ctx.counts[rule + ".graph_library_calls"] = n_dep
     ctx.counts[rule + ".worklists"] = len(wl)
     ctx.counts[rule + ".pushes"] = n_push
     # the rank relaxation is the one worklist expected today
@@ -1103,7 +1177,8 @@ def progress_guard(ctx, body, bb, t):
                     newv = strip_refs(st["value"])
                     if same_value_expr(ctx, body, newv, new) or fmt_expr(newv, body) == fmt_expr(new, body):
                         # and the pushed node is that node
-                        if pushed is None or same_value_expr(ctx, body, pushed, i1):
+                        if pushed is None or same_value_expr(ctx, body, pushed, i1) or \
+                                any(strip_refs(x) == strip_refs(i1) for x in walk_expr(pushed)):
                             return True, "strict improvement `%s %s %s` with the improved value stored" % (fmt_expr(l, body), op, fmt_expr(r, body))
         # test-and-set visited flag
         if e.kind in ("deref", "local", "call", "unop"):
@@ -1225,9 +1300,19 @@ def C13_rules(ctx, rule="K"):
             p = callee_path(t) or ""
             if p.endswith("::edge_weight") or p.endswith("::raw_edges") or p.endswith("::edge_weights_mut") or "edge_references" in p or p in ACCESS_FNS:
                 reads_w.append(p)
+            if p in ("std::ops::Index::index", "std::ops::IndexMut::index_mut") and len(t["args"]) > 1 and \
+                    "EdgeIndex" in t["args"][1].get("pl", {}).get("ty", t["args"][1].get("ty", "")):
+                reads_w.append("graph[edge_id]")
+            if p == "std::iter::Iterator::for_each":
+                chain = iterator_chain(ctx, bx, expr_operand(bx, t["args"][0]))
+                names = [c[0] for c in chain]
+                if CHILDREN in names:
+                    sel = [x for x in names if x in SELECTIVE_ITER]
+                    if sel:
+                        reads_w.append("children walk narrowed by %s" % sel)
     ctx.check(not preds and not reads_w, rule + "5", "parametric", where,
-              "the rank calculation is generic over an unbounded F and never reads an edge weight: it cannot depend on access declarations or edge kinds",
-              "rank calculation depends on F's traits %s / edge weights %s" % (preds, reads_w))
+              "the rank calculation is generic over an unbounded F, never reads an edge weight and walks all children: it cannot depend on access declarations or edge kinds",
+              "rank calculation depends on F's traits %s / edge weights or a narrowed walk %s" % (preds, reads_w))
     b0 = build_body(ctx)
     roles = structure_roles(ctx)
     if b0 is not None and roles and roles.get("ranks") is not None:
@@ -1356,11 +1441,16 @@ def C16_rules(ctx, rule="E"):
                     ok = False
                     why = "edge kind is not a constant"
                 # result returned unchanged
-                rs = fl.sources_local(b, 0, ())
+                rs = fl.sources_local(b, 0, ()) | fl.sources_local(b, 0, ("E",))
                 ret_ok = any(s.kind == "alloc" and s[4] == UPDATE_EDGE for s in rs) and all(s.kind == "alloc" and s[4] == UPDATE_EDGE for s in rs)
-                if ok and not ret_ok:
+                # the return place is assigned only by the update_edge call (no early Ok/Err of its own)
+                rdefs = get_defs(b).of(0)
+                only_call = len(rdefs) == 1 and rdefs[0][0] == "call" and callee_path(rdefs[0][3]) == UPDATE_EDGE
+                other_calls = [callee_path(t2) for _, t2 in b.calls() if callee_path(t2) != UPDATE_EDGE]
+                if ok and not (ret_ok and only_call and not other_calls and not b.back_edges() and
+                               not any(blk["term"]["k"] == "switch" for blk in b.blocks)):
                     ok = False
-                    why = "result of update_edge is not returned unchanged"
+                    why = "the method does more than return update_edge's result unchanged (extra checks / early returns / other calls %s)" % other_calls
             singles[f["id"]] = kind
             ctx.check(ok, rule + "1", "single|%s" % f["name"], where,
                       "%s is exactly daggy::Dag::update_edge(from, to, Edge::%s) with its result returned unchanged" % (f["name"], kind),
